@@ -13,8 +13,8 @@ EXPLANATION = (
     "same for PtpInstanceState::bmca, which runs inside with_mut; (LOCK-3) the lock-order graph over {instance "
     "state, SharedClock mutex} has no cycle; (LOCK-4) no function can run two critical sections that write "
     "parentDS/currentDS/timePropertiesDS one after the other, and none inside a loop, so a reader can never see a "
-    "mixture of two sections of one operation; (LOCK-5) each lock impl acquires exactly once and drops the guard "
-    "on the normal and on the unwind path."
+    "mixture of two sections of one operation; (LOCK-5) each lock impl acquires exactly once, with a blocking "
+    "acquisition (read/write/lock/borrow*, never try_*), and drops the guard on the normal and on the unwind path."
 )
 NOT_DECIDED = ("Behaviour of host-provided lock/clock/filter implementations (assumed not to re-enter the instance); "
                "fairness / progress of the host's lock.")
@@ -329,7 +329,12 @@ def check_prog(ctx, rep, cfgname, prog):
         unwind_ok = guard_local is not None and any(
             b.blocks[bi]["term"]["p"]["l"] == guard_local for bi in drops_cleanup)
         construct = "%s::%s" % (b.self_name, b.name)
-        if len(acq) != 1 or len(calls_f) != 1 or forget or not guard_drop_ok or not unwind_ok:
+        if len(acq) == 1 and acq[0][1].startswith("try_"):
+            rep.violation("LOCK-5", b.key + tag, construct,
+                          "lock impl acquires with the non-blocking `%s`: a port operation that meets another thread's "
+                          "critical section fails/panics instead of waiting (the property quantifies over ports driven "
+                          "from different threads over a BLOCKING lock)" % acq[0][1], where=b.loc())
+        elif len(acq) != 1 or len(calls_f) != 1 or forget or not guard_drop_ok or not unwind_ok:
             rep.violation("LOCK-5", b.key + tag, construct,
                           "lock impl does not acquire exactly once / release on every path: acquisitions=%s, "
                           "closure calls=%d, forget=%s, guard dropped after call=%s, on unwind=%s" % (
